@@ -548,6 +548,27 @@ def part_assign(cx, henc):
     for n in range(3, 259):
         for name, f in freq_families(rng, n, cx.quick).items():
             cases.append((name, f))
+    # small alphabets with skewed, tie-rich counts (as real small blocks
+    # have): the optimal shape is sensitive to every single weight there
+    for _ in range(6000 if cx.quick else 60000):
+        n = rng.randint(3, 16)
+        kind = rng.randrange(4)
+        if kind == 0:
+            f = [rng.randint(0, rng.choice([3, 10, 40, 200])) for _ in range(n)]
+        elif kind == 1:
+            r = rng.choice([1.3, 1.6, 2.0, 2.7])
+            f = [int(r ** i) + rng.randint(0, 2) for i in range(n)]
+            rng.shuffle(f)
+        elif kind == 2:
+            m = rng.randint(n, 400)
+            f = [0] * n
+            for _k in range(m):
+                f[min(n - 1, int(rng.paretovariate(1.1)) - 1)] += 1
+            rng.shuffle(f)
+        else:
+            f = sorted(rng.randint(1, 30) for _ in range(n))
+            f[-1] += rng.randint(0, 300)
+        cases.append(('small-skewed', f))
     crep, cerr = cx.c(henc, ['assign ' + cl(f) for _, f in cases], nproc=12)
     if cerr:
         bad = [c for c, r in zip(cases, crep) if r is None][:1]
